@@ -18,10 +18,15 @@ def chain_codes(prog, fn, var):
     """Constants the function compares `var` with (if/elif chain) -> {value: lineno}."""
     out = {}
     for n in ast.walk(fn.node):
-        if isinstance(n, ast.Compare) and src_of(n.left) == var and isinstance(n.ops[0], ast.Eq):
-            v = prog.try_fold(n.comparators[0], fn.module, fn.cls)
-            if v is not None:
-                out[v] = n.lineno
+        if isinstance(n, ast.Compare) and isinstance(n.ops[0], (ast.Eq, ast.In)) and \
+                (src_of(n.left) == var or common.unalias(fn.node, n.left) == var):
+            rhs = n.comparators[0]
+            elts = [rhs] if isinstance(n.ops[0], ast.Eq) else (
+                list(rhs.elts) if isinstance(rhs, (ast.Tuple, ast.List, ast.Set)) else [])
+            for e in elts:
+                v = prog.try_fold(e, fn.module, fn.cls)
+                if v is not None:
+                    out.setdefault(v, n.lineno)
     return out
 
 
